@@ -176,6 +176,7 @@ pub fn apply_fs_op(w: &WorldDir, op: &Op) {
                 let _ = fs::create_dir_all(d);
             }
             let _ = fs::remove_file(&p);
+            let target = target.replace("{ROOT}", &w.root().to_string_lossy());
             let _ = std::os::unix::fs::symlink(target, &p);
         }
         Op::Rename { from, to } => {
